@@ -364,8 +364,78 @@ func (f *flakyReader) Read(p []byte) (int, error) {
 	return len(p), nil
 }
 
+// goid: the number of the running goroutine (from the header line of its stack trace).
+func goid() string {
+	var b [64]byte
+	n := runtime.Stack(b[:], false)
+	f := strings.Fields(string(b[:n]))
+	if len(f) >= 2 {
+		return f[1]
+	}
+	return "?"
+}
+
+// nilPoolOnCaller: with a nil pool every task runs on the calling goroutine, one after the other in index order.
+func nilPoolOnCaller() []failure {
+	var fails []failure
+	var p *pool.Pool
+	var mu sync.Mutex
+	for _, k := range []int{0, 1, 2, 3, 8} {
+		me := goid()
+		var order []int
+		var where []string
+		active, overlap := int32(0), false
+		p.Parallelize(k, func(i int) interface{} {
+			if atomic.AddInt32(&active, 1) > 1 {
+				overlap = true
+			}
+			mu.Lock() // (only a library that does NOT stay on the calling goroutine makes this lock necessary)
+			where = append(where, goid())
+			order = append(order, i)
+			mu.Unlock()
+			time.Sleep(200 * time.Microsecond)
+			atomic.AddInt32(&active, -1)
+			return i
+		})
+		for j, g := range where {
+			if g != me {
+				fails = append(fails, failure{Case: fmt.Sprintf("nil pool Parallelize(%d)", k), What: "not-on-caller", Detail: fmt.Sprintf("task %d ran on goroutine %s, the caller is goroutine %s", order[j], g, me)})
+				break
+			}
+		}
+		if overlap {
+			fails = append(fails, failure{Case: fmt.Sprintf("nil pool Parallelize(%d)", k), What: "not-on-caller", Detail: "two tasks ran at the same time"})
+		}
+		for j := range order {
+			if order[j] != j {
+				fails = append(fails, failure{Case: fmt.Sprintf("nil pool Parallelize(%d)", k), What: "not-on-caller", Detail: fmt.Sprintf("tasks ran in the order %v", order)})
+				break
+			}
+		}
+		where = nil
+		var cnt int32
+		p.Search(k, func() interface{} {
+			mu.Lock()
+			where = append(where, goid())
+			mu.Unlock()
+			if atomic.AddInt32(&cnt, 1)%2 == 0 {
+				return nil
+			}
+			return 1
+		})
+		for _, g := range where {
+			if g != me {
+				fails = append(fails, failure{Case: fmt.Sprintf("nil pool Search(%d)", k), What: "not-on-caller", Detail: fmt.Sprintf("a candidate was tried on goroutine %s, the caller is goroutine %s", g, me)})
+				break
+			}
+		}
+	}
+	return fails
+}
+
 func stress(seed int64, calls int) []failure {
 	var fails []failure
+	fails = append(fails, nilPoolOnCaller()...)
 	// 0 workers = the nil pool: the same calls on the calling goroutine must give the same results
 	for _, w := range []int{0, 1, 2, 3, 4, 16} {
 		var p *pool.Pool
